@@ -1501,6 +1501,13 @@ impl AnnotationStore {
                                 offset.mode(),
                             )),
                         ));
+                    } else {
+                        //the targeted annotation has no single text selection the offset could be relative to
+                        //(it has a complex selector, no text at all, or points at another annotation as a whole):
+                        //refuse rather than silently dropping an offset that was never validated
+                        return Err(StamError::NoText(
+                            "AnnotationSelector has an offset but the targeted annotation does not reference a single text selection it can be relative to",
+                        ));
                     }
                 }
                 let target_annotation: &Annotation = self.get(&a_id).map_err(|err| {
